@@ -45,6 +45,20 @@ pub fn run(tier: Tier) -> i32 {
         rep.add_sweep("large-table", sizes.len() as u64, sizes.len() as u64, sizes.len() as u64, vec![format!("servers with max_clients in {:?}: filled by real clients, one more denied, payload routing both ways for every client, keep-alive rounds, one kicked and replaced, one silent until it times out ({} library calls)", sizes, steps)]);
         rep.transitions += steps;
     }
+    // configuration class: limit changed at run time, overlapping handshakes for the last places
+    {
+        let cases = limit_change_cases(tier);
+        let res = explore::par_cases(cases.len(), |i| limit_change_case(cases[i].0, &cases[i].1, cases[i].2, cases[i].3, cases[i].4));
+        let mut steps = 0u64;
+        for (i, r) in res.into_iter().enumerate() {
+            match r {
+                Ok(n) => steps += n,
+                Err(v) => rep.violation("limit-change", v, J::obj().set("kind", J::s("limit-change")).set("case", J::i(i as u64))),
+            }
+        }
+        rep.add_sweep("limit-change", cases.len() as u64, cases.len() as u64, cases.len() as u64, vec![format!("{} (initial limit, set_max_clients sequence, clients connected first, clients with overlapping handshakes, response order) cases, e.g. {:?}: never more than the limit, exactly the limit when enough came, table consistent ({} library calls)", cases.len(), cases[1], steps)]);
+        rep.transitions += steps;
+    }
     rep.finish()
 }
 
@@ -239,11 +253,178 @@ pub fn table_scale_case(max: usize) -> Result<u64, crate::explore::Violation> {
     Ok(steps)
 }
 
+/// Configuration class: the limit is changed at run time (raised step by step through `steps`), `pre` clients are
+/// connected one after the other, then `extra` more clients run *overlapping* handshakes (all requests first, then all
+/// responses, in the given order). Never more than the limit connected, exactly the limit when enough clients came,
+/// ids and lookups consistent, the losers are refused.
+pub fn limit_change_case(base: usize, steps: &[usize], pre: usize, extra: usize, reverse_responses: bool) -> Result<u64, crate::explore::Violation> {
+    use crate::explore::Violation;
+    use crate::nc::{self, make_token_wide, new_client, new_server, server_addr, wide_addr, TokenSpec, SR};
+    use std::time::Duration;
+    let public = vec![server_addr(0)];
+    let mut server = new_server(base, public.clone(), Duration::ZERO);
+    let dt = Duration::from_millis(250);
+    let id_of = |k: usize| 20_000u64 + 3 * k as u64;
+    let mk = |k: usize| {
+        let mut sp = TokenSpec::new(id_of(k), 0, public.clone());
+        sp.expire = 600;
+        sp.timeout = 5;
+        make_token_wide(&sp, k as u32)
+    };
+    let bad = |sig: &str, msg: String| Violation::new(format!("C10/limit-change/{}", sig), format!("max_clients {} then {:?}, {} connected first, {} overlapping: {}", base, steps, pre, extra, msg));
+    let mut calls = 0u64;
+    let mut limit = base;
+    let mut lowered = false;
+    for &l in steps {
+        let s = &mut server;
+        crate::link::guard("NetcodeServer::set_max_clients", || s.set_max_clients(l))?;
+        if l < limit {
+            lowered = true;
+        }
+        limit = l;
+        calls += 1;
+    }
+    if server.max_clients() != limit {
+        return Err(bad("max_clients-getter", format!("max_clients() = {} after set_max_clients({})", server.max_clients(), limit)));
+    }
+    let mut connected: Vec<usize> = vec![];
+    let mut clients: Vec<renetcode::NetcodeClient> = vec![];
+    let mut challenged: Vec<(usize, Vec<u8>)> = vec![];
+    let check = |server: &renetcode::NetcodeServer, connected: &[usize], what: &str| -> Result<(), Violation> {
+        let mut ids = server.clients_id();
+        ids.sort();
+        let mut want: Vec<u64> = connected.iter().map(|&k| id_of(k)).collect();
+        want.sort();
+        if ids != want {
+            return Err(bad("table-disagrees-with-reported-events", format!("{}: clients_id() = {:?}, events imply {:?}", what, ids, want)));
+        }
+        if !lowered && ids.len() > limit {
+            return Err(bad("more-than-max_clients", format!("{}: {} clients connected, max_clients is {}", what, ids.len(), limit)));
+        }
+        for &k in connected {
+            if server.client_addr(id_of(k)) != Some(wide_addr(k as u32)) {
+                return Err(bad("lookup-by-id-wrong-address", format!("{}: client_addr({}) = {:?}", what, id_of(k), server.client_addr(id_of(k)))));
+            }
+        }
+        Ok(())
+    };
+    // sequential part and request phase of the overlapping part
+    for k in 0..pre + extra {
+        let mut c = new_client(Duration::ZERO, &mk(k));
+        let addr = wide_addr(k as u32);
+        let (req, _) = nc::cli_update(&mut c, dt)?.ok_or_else(|| bad("client-silent", format!("client {} produced no request", k)))?;
+        let r1 = nc::srv_process(&mut server, addr, &req)?;
+        calls += 2;
+        let room = connected.len() < limit;
+        match r1.reply() {
+            Some((_, bytes)) => {
+                nc::cli_process(&mut c, bytes)?;
+            }
+            None => {
+                if room {
+                    return Err(bad("room-but-request-ignored", format!("request of client {} got {} with {} of {} connected", k, r1.kind(), connected.len(), limit)));
+                }
+            }
+        }
+        if let Some((resp, _)) = if c.is_connecting() { nc::cli_update(&mut c, dt)? } else { None } {
+            if k < pre {
+                let r2 = nc::srv_process(&mut server, addr, &resp)?;
+                calls += 1;
+                match &r2 {
+                    SR::Connected { client_id, bytes, .. } => {
+                        if *client_id != id_of(k) {
+                            return Err(bad("connected-event-names-wrong-session", format!("client {} reported as id {}", k, client_id)));
+                        }
+                        nc::cli_process(&mut c, bytes)?;
+                        connected.push(k);
+                    }
+                    other => {
+                        if room {
+                            return Err(bad("room-but-not-connected", format!("client {} got {} on its response with {} of {} connected", k, other.kind(), connected.len(), limit)));
+                        }
+                    }
+                }
+                check(&server, &connected, "sequential part")?;
+            } else {
+                challenged.push((k, resp));
+            }
+        }
+        clients.push(c);
+    }
+    if reverse_responses {
+        challenged.reverse();
+    }
+    for (k, resp) in &challenged {
+        let room = connected.len() < limit;
+        let r2 = nc::srv_process(&mut server, wide_addr(*k as u32), resp)?;
+        calls += 1;
+        match &r2 {
+            SR::Connected { client_id, .. } => {
+                if *client_id != id_of(*k) {
+                    return Err(bad("connected-event-names-wrong-session", format!("client {} reported as id {}", k, client_id)));
+                }
+                connected.push(*k);
+            }
+            other => {
+                if room {
+                    return Err(bad("room-but-not-connected", format!("client {} got {} on its response with {} of {} connected", k, other.kind(), connected.len(), limit)));
+                }
+            }
+        }
+        check(&server, &connected, "overlapping responses")?;
+    }
+    if !lowered && pre + extra >= limit && connected.len() != limit {
+        return Err(bad("room-but-not-connected", format!("{} clients tried, {} connected, limit {}", pre + extra, connected.len(), limit)));
+    }
+    Ok(calls)
+}
+
+pub fn limit_change_cases(tier: Tier) -> Vec<(usize, Vec<usize>, usize, usize, bool)> {
+    let mut out = vec![];
+    let bases: Vec<usize> = tier.pick(vec![1, 2, 3, 5], vec![1, 2, 3, 4, 5, 7, 8, 16]);
+    for &b in &bases {
+        let ups: Vec<usize> = tier.pick((b + 1..=b + 5).chain([17, 33]).collect(), (b + 1..=b + 18).chain([33, 65, 100, 129]).collect());
+        for &n in &ups {
+            for rev in [false, true] {
+                // everything overlapping; all but one place taken first; half taken first
+                out.push((b, vec![n], 0, n + 2, rev));
+                out.push((b, vec![n], n - 1, 3, rev));
+                out.push((b, vec![n], n / 2, n, rev));
+            }
+            // lobby filling up: raised one by one
+            out.push((b, (b + 1..=n).collect(), n - 1, 3, false));
+            // raised, lowered to the old value, raised again
+            out.push((b, vec![n, b, n], b, n, false));
+        }
+    }
+    out
+}
+
 pub fn replay(j: &J) -> i32 {
     if j.get("kind").and_then(|k| k.as_str()) == Some("large-table") {
         let m = j.get("max_clients").and_then(|x| x.as_i()).unwrap_or(256) as usize;
         println!("large table case: max_clients {}", m);
         return match table_scale_case(m) {
+            Err(v) => {
+                println!("RESULT: violation {} — {}", v.signature, v.message);
+                1
+            }
+            Ok(_) => {
+                println!("RESULT: no violation");
+                0
+            }
+        };
+    }
+    if j.get("kind").and_then(|k| k.as_str()) == Some("limit-change") {
+        let tier = match j.get("tier").and_then(|t| t.as_str()) {
+            Some("thorough") => Tier::Thorough,
+            _ => Tier::Quick,
+        };
+        let cases = limit_change_cases(tier);
+        let i = j.get("case").and_then(|x| x.as_i()).unwrap_or(0) as usize;
+        let Some(c) = cases.get(i) else { return 2 };
+        println!("limit change case: {:?}", c);
+        return match limit_change_case(c.0, &c.1, c.2, c.3, c.4) {
             Err(v) => {
                 println!("RESULT: violation {} — {}", v.signature, v.message);
                 1
